@@ -1396,14 +1396,126 @@ def constructor_search(ctx):
     return ev, viol
 
 
+def alias_search(ctx):
+    """the state of a model is a function of the VALUES it was given, never of the identity of the arrays that carried them:
+    (1) assigning an ndarray read from another model's (or the model's own) getter — anis, angles, len_scale_vec, integral_scale_vec —
+        or passing it to a constructor must act exactly like assigning a list of the same numbers;
+    (2) whatever happens to the receiving model afterwards (setters, dimension changes, the zeroing of space-time angles of temporal
+        models, rejected assignments) must leave the donor model and the caller's array untouched, and vice versa;
+    (3) values read earlier from a getter and written back later ('saved = m.angles; ...; m.angles = saved') restore that state."""
+    import gstools as gs
+    rng = np.random.RandomState(ctx.seed + 1451)
+    viol, ev = [], 0
+    names = ["Gaussian", "Exponential", "Matern", "Stable", "Spherical", "TPLStable"]
+
+    def full(mdl):
+        return dict(values_of(mdl), len_vec=[float(x) for x in mdl.len_scale_vec])
+
+    def same(a, b):
+        return a.keys() == b.keys() and all(vclose(a[k], b[k], 1e-12) for k in a)
+
+    def mk(cname, dim, temporal, **kw):
+        cls = getattr(gs, cname)
+        if temporal:
+            return cls(spatial_dim=dim - 1, temporal=True, **kw)
+        return cls(dim=dim, **kw)
+
+    def later_ops(mdl, k):
+        d0 = int(mdl.dim)
+        if k == 0:
+            mdl.angles = [0.5] * len(mdl.angles)
+        elif k == 1:
+            mdl.anis = 0.25
+        elif k == 2 and not mdl.temporal and d0 > 1:
+            mdl.dim = d0 - 1
+            mdl.dim = d0
+        elif k == 3:
+            mdl.len_scale = [3.0, 1.0]
+        elif k == 4:
+            try:
+                mdl.anis = -1.0
+            except ValueError:
+                pass
+
+    with warnings.catch_warnings():
+        warnings.simplefilter("ignore")
+        for trial in range(ctx.scale(60, 500)):
+            cname = names[trial % len(names)]
+            dim = int(rng.randint(2, 5))
+            if cname == "TPLStable":
+                dim = min(dim, 3)
+            t_don, t_rec = bool(rng.rand() < 0.3), bool(rng.rand() < 0.5)
+            n_ang = {2: 1, 3: 3, 4: 6}[dim]
+            ang = [float(x) for x in np.round(rng.uniform(-1.2, 1.2, n_ang), 3)]
+            ani = [float(x) for x in rng.choice([0.3, 0.7, 1.0, 1.8], size=dim - 1)]
+            attr = ["angles", "anis", "len_scale_vec", "angles", "angles"][int(rng.randint(5))]
+            case = dict(cls=cname, dim=dim, donor_temporal=t_don, receiver_temporal=t_rec, attribute=attr, angles=ang, anis=ani)
+            try:
+                donor = mk(cname, dim, t_don, len_scale=2.0, anis=ani, angles=ang)
+                before = full(donor)
+                arr = getattr(donor, attr)                       # what a user reads from a model
+                vals = [float(x) for x in np.asarray(arr)]
+                target = "len_scale" if attr == "len_scale_vec" else attr
+                via_ctor = bool(rng.rand() < 0.4)
+                if via_ctor:
+                    rec_a = mk(cname, dim, t_rec, **({"len_scale": 2.0} if target != "len_scale" else {}), **{target: arr})
+                    rec_l = mk(cname, dim, t_rec, **({"len_scale": 2.0} if target != "len_scale" else {}), **{target: list(vals)})
+                else:
+                    rec_a, rec_l = mk(cname, dim, t_rec, len_scale=2.0), mk(cname, dim, t_rec, len_scale=2.0)
+                    setattr(rec_a, target, arr)
+                    setattr(rec_l, target, list(vals))
+                ev += 1
+                case["route"] = "constructor" if via_ctor else "setter"
+                if not same(full(rec_a), full(rec_l)):
+                    viol.append({"key": f"aliasing:array-vs-list:{attr}", "case": case,
+                                 "what": f"giving a model the ndarray read from another model's `{attr}` does not act like giving the list of the same numbers"})
+                if not same(full(donor), before) or [float(x) for x in np.asarray(arr)] != vals:
+                    viol.append({"key": f"aliasing:donor-changed:{attr}", "case": case,
+                                 "what": f"reading `{attr}` from one model and giving it to another ({case['route']}) changed the first model / the array read from it"})
+                    continue
+                k = int(rng.randint(5))
+                case["later"] = k
+                snap_rec = full(rec_a)
+                later_ops(rec_a, k)
+                if not same(full(donor), before) or [float(x) for x in np.asarray(arr)] != vals:
+                    viol.append({"key": f"aliasing:donor-changed-later:{attr}", "case": case,
+                                 "what": "a later change of the receiving model changed the model the values were read from / the array"})
+                    continue
+                rec_b = mk(cname, dim, t_rec, len_scale=2.0)
+                setattr(rec_b, target, getattr(donor, attr))
+                snap_b = full(rec_b)
+                later_ops(donor, k)
+                if not same(full(rec_b), snap_b):
+                    viol.append({"key": f"aliasing:receiver-changed-later:{attr}", "case": case,
+                                 "what": "a later change of the model the values were read from changed the receiving model"})
+                # (3) save / change / write back on ONE model
+                m = mk(cname, dim, t_rec, len_scale=2.0, anis=ani, angles=ang)
+                ref = full(m)
+                saved_ang, saved_anis = m.angles, m.anis
+                later_ops(m, int(rng.randint(3)))
+                m.angles = [0.0] * len(m.angles)
+                m.anis = [1.0] * len(m.anis)
+                m.len_scale = 2.0
+                m.anis = saved_anis
+                m.angles = saved_ang
+                ev += 1
+                if not same(full(m), ref):
+                    viol.append({"key": "aliasing:save-and-restore", "case": case,
+                                 "what": "values read from the getters (anis, angles), kept, and written back after other changes do not restore the state"})
+            except Exception as ex:
+                viol.append({"key": "aliasing:exception", "case": case, "what": f"{type(ex).__name__}: {ex}"})
+    return ev, viol
+
+
 def search(ctx, deep=False):
     f = 3 if deep else 1
     ev0, v0 = directed_search()
     ev1, v1 = boundary_search(ctx)
     ev2, v2 = history_search(ctx, ctx.scale(500, 8000) * f, 10 if ctx.quick else 16)
     ev3, v3 = constructor_search(ctx)
-    ev2 += ev3
-    viol = v0 + v1 + v3 + v2
+    ev4, v4 = alias_search(ctx)
+    ev2 += ev3 + ev4
+    viol = v0 + v1 + v3 + v4 + v2
     # one violation per key is enough for the verdict; keep it small and stable
     out, seen = [], set()
     for v in viol:
@@ -1416,6 +1528,8 @@ def search(ctx, deep=False):
                        "against an independent oracle: out-of-bounds rejected, rejected => unchanged, accepted => inside bounds, "
                        "derived quantities, frame conditions, equality with a freshly constructed model (state and behaviour); "
                        f"{ev3} constructor calls combining var / var_raw with integral_scale, optional arguments and rescale against the setter route; "
+                       f"{ev4} transfers of getter arrays (anis, angles, len_scale_vec) between models / save-and-restore on one model: array == list of the "
+                       "same numbers, donor and receiver independent afterwards; "
                        f"violation keys: {sorted(seen)}"}
 
 
